@@ -4,6 +4,10 @@ CONSTANTS
   MaxOps = 4
   Kinds = {"write", "replace"}
   Fates = {"deliver", "drop", "dup"}
-  Recheck = FALSE
+  Rejects = {"B"}
+  CbOps = "one"
+  Recheck = TRUE
+  Post = "forget"
+  Record = "always"
   Export = TRUE
 INVARIANTS Emit
